@@ -1387,7 +1387,7 @@ func init() {
 	oracles["c18.all"] = oracleC18All
 	oracles["c17.carry"] = oracleC17
 	treeRule := "generated CRS checkouts (1..5 rule assembly files incl. chain offsets, include files, toolchain.yaml or none, rules files with the addressed rules and chains, regression tests, setup example) with decoys (other extensions, similar names, nested directories, files outside the root); "
-	properties["C15"] = &Property{ID: "C15", LeanMods: []string{"CrsProps.C15", "CrsProps.CliRun"}, Corr: "K10 (binary on sandbox trees, recursive snapshot path/size/sha256/mode before and after)", Workers: 8,
+	properties["C15"] = &Property{ID: "C15", LeanMods: []string{"CrsProps.C15", "CrsProps.CliRun", "CrsProps.C18Path"}, Corr: "K10 (binary on sandbox trees, recursive snapshot path/size/sha256/mode before and after)", Workers: 8,
 		Rule: treeRule + "19-20 command lines per tree (inspecting and rewriting commands, single target / --all / --check / -o github), run from the root, with -d root, -d subdirectory, relative -d; non-trivial = every run; distinct by (tree, command, mode)", Gen: genC15}
 	properties["C16"] = &Property{ID: "C16", LeanMods: []string{"CrsProps.C16", "CrsProps.C12Cli", "CrsProps.CliRun"}, Corr: "K10 (exit status, stdout, tree snapshot under single injected faults)", Workers: 8,
 		Rule: treeRule + "one fault of 30 classes injected into the first/middle/last assembly file (or the rules file / argument / version), every command the fault concerns; non-trivial = every run; distinct by (tree, fault, command)", Gen: genC16,
